@@ -207,6 +207,28 @@ pub fn run(cfg: &Cfg) {
         let v = gen_value(&mut r, depth, floats);
         case(&mut sink, &mut r, &v, "random");
     }
+    // deep values: nested as deep as the JSON reader goes (127 containers around a scalar) and a little
+    // less, lists and objects mixed, the innermost container empty or not
+    for depth in [1usize, 2, 60, 100, 120, 125, 126, 127] {
+        for variant in 0..6 {
+            let mut v = match variant % 3 {
+                0 => Value::from(7),
+                1 => Value::String("deep\n".into()),
+                _ => Value::Array(vec![]),
+            };
+            let levels = if variant % 3 == 2 { depth - 1 } else { depth };
+            for lvl in 0..levels {
+                v = if (variant < 3 && lvl % 2 == 0) || r.chance(1, 3) {
+                    Value::Array(vec![v])
+                } else {
+                    let mut m = serde_json::Map::new();
+                    m.insert(format!("k{}", lvl % 3), v);
+                    Value::Object(m)
+                };
+            }
+            case(&mut sink, &mut r, &v, "deep");
+        }
+    }
     // every Unicode scalar value in a string, in blocks (thorough: all; quick: a stride)
     let stride = if cfg.thorough { 1 } else { 61 };
     let mut cp = 0u32;
